@@ -256,6 +256,19 @@ func genFrame(r *prng.R, spec codecSpec, big bool) ([]mSeries, frameShape) {
 	if r.Chance(1, 10) {
 		eqStart = -eqStart
 	}
+	// boundary ranges: the wire format has a flag for "every range is the zero range";
+	// a shared range with zero SPAN, or with only one zero end, must not take it
+	switch r.Intn(8) {
+	case 0:
+		eqEnd = eqStart
+		shape.TRs += "/zero-span"
+	case 1:
+		eqStart = 0
+		shape.TRs += "/zero-start"
+	case 2:
+		eqEnd = 0
+		shape.TRs += "/zero-end"
+	}
 	// alignments
 	alMode := r.Intn(5)
 	shape.Aligns = []string{"zero", "equal", "chain", "distinct", "mixed"}[alMode]
@@ -308,6 +321,9 @@ func genFrame(r *prng.R, spec codecSpec, big bool) ([]mSeries, frameShape) {
 		case 2:
 			s.Start = int64(r.U64() >> 2)
 			s.End = s.Start + int64(r.Intn(1_000_000))
+			if r.Chance(1, 6) {
+				s.End = s.Start
+			}
 		}
 		am := alMode
 		if am == 4 {
@@ -367,6 +383,17 @@ func genInterleaved(r *prng.R, spec codecSpec, distinctKeys []uint32) ([]mSeries
 	shape.TRs = []string{"zero", "equal", "distinct"}[trMode]
 	eqStart := int64(r.U64() >> 2)
 	eqEnd := eqStart + int64(r.Intn(1_000_000))
+	switch r.Intn(8) {
+	case 0:
+		eqEnd = eqStart
+		shape.TRs += "/zero-span"
+	case 1:
+		eqStart = 0
+		shape.TRs += "/zero-start"
+	case 2:
+		eqEnd = 0
+		shape.TRs += "/zero-end"
+	}
 	next := map[uint32]uint64{}
 	out := make([]mSeries, 0, n)
 	for i := 0; i < n; i++ {
